@@ -169,3 +169,296 @@ Proof.
   intros I Hs. pose proof (i_full s I) as K.
   destruct Hs; simpl; intros x0 Hc; split_or; try discriminate; try (eapply K; eassumption); try congruence.
 Qed.
+
+Ltac eqcase t' t := destruct (N.eqb t' t) eqn:?E;
+  [apply N.eqb_eq in E; subst t' | apply N.eqb_neq in E].
+
+Lemma pres_hold s s' : Inv s -> step s s' ->
+  forall t p b, get_pc t (epcs s') = Some (p, b) -> holding p = true -> lock s' = HExec t.
+Proof.
+  intros I Hs. pose proof (i_hold s I) as K. pose proof (i_lockC s I) as KC.
+  destruct Hs; simpl; intros t' p' b' Hg Hh; pcs.
+  - (* spawn *) destruct (get_pc t' (epcs s)) as [[p1 b1]|] eqn:G.
+    + inversion Hg; subst. eapply K; eauto.
+    + destruct (N.eqb t' t); inversion Hg; subst; discriminate.
+  - destruct (get_pc t' (epcs s)) as [[p1 b1]|] eqn:G.
+    + inversion Hg; subst. eapply K; eauto.
+    + destruct (N.eqb t' t); inversion Hg; subst; discriminate.
+  - eapply K; eauto.
+  - eapply K; eauto.
+  - (* exec_lock *) eqcase t' t; [reflexivity|]. specialize (K _ _ _ Hg Hh). congruence.
+  - (* push *) eqcase t' t; [assumption|]. eapply K; eauto.
+  - eapply K; eauto.
+  - (* full *) eqcase t' t; [assumption|]. eapply K; eauto.
+  - (* unlock *) eqcase t' t.
+    + inversion Hg; subst. discriminate.
+    + specialize (K _ _ _ Hg Hh). congruence.
+  - eapply K; eauto.
+  - (* coll_lock *) specialize (K _ _ _ Hg Hh). congruence.
+  - eapply K; eauto.
+  - eapply K; eauto.
+  - (* coll_unlock *) specialize (K _ _ _ Hg Hh).
+    assert (lock s = HColl) by (apply KC; split_or; rw_state s; reflexivity). congruence.
+Qed.
+
+Lemma pres_lockE s s' : Inv s -> step s s' ->
+  forall t, lock s' = HExec t -> exists p b, get_pc t (epcs s') = Some (p, b) /\ holding p = true.
+Proof.
+  intros I Hs. pose proof (i_lockE s I) as K.
+  destruct Hs; simpl; intros t' Hl; try discriminate; pcs.
+  - destruct (K _ Hl) as (p1 & b1 & G & Hh). rewrite G. eauto.
+  - destruct (K _ Hl) as (p1 & b1 & G & Hh). rewrite G. eauto.
+  - eauto.
+  - eauto.
+  - inversion Hl; subst. rewrite N.eqb_refl. eexists _, _; split; [reflexivity|reflexivity].
+  - rewrite H in Hl; inversion Hl; subst. rewrite N.eqb_refl. eexists _, _; split; reflexivity.
+  - eauto.
+  - rewrite H in Hl; inversion Hl; subst. rewrite N.eqb_refl. eexists _, _; split; reflexivity.
+  - eauto.
+  - eauto.
+  - eauto.
+Qed.
+
+Lemma pres_sync s s' : Inv s -> step s s' -> forall t, cp s' = CSync t -> get_pc t (epcs s') <> None.
+Proof.
+  intros I Hs. pose proof (i_sync s I) as K.
+  destruct Hs; simpl; intros t' Hc; try discriminate; pcs;
+    try (apply K; congruence);
+    try (specialize (K t' Hc); eqcase t' t; [discriminate|assumption]).
+  inversion Hc; subst. destruct (get_pc t' (epcs s)); [discriminate|]. rewrite N.eqb_refl. discriminate.
+Qed.
+
+Lemma pres_out s s' : Inv s -> step s s' ->
+  forall t b, get_pc t (epcs s') = Some (EOut, b) -> idle (cp s') = true -> done s' <> None.
+Proof.
+  intros I Hs. pose proof (i_out s I) as K. pose proof (i_hold s I) as KH. pose proof (i_lockC s I) as KC.
+  destruct Hs; simpl; intros t' b' Hg Hi; pcs; try discriminate; try (rw_state s; simpl in *; discriminate).
+  - destruct (get_pc t' (epcs s)) as [[p1 b1]|] eqn:G.
+    + inversion Hg; subst. eapply K; eauto. rewrite H; reflexivity.
+    + destruct (N.eqb t' t); discriminate.
+  - destruct (get_pc t' (epcs s)) as [[p1 b1]|] eqn:G.
+    + inversion Hg; subst. eapply K; eauto. rewrite H; reflexivity.
+    + destruct (N.eqb t' t); discriminate.
+  - eapply K; eauto. rewrite H; reflexivity.
+  - eapply K; eauto. rewrite H; reflexivity.
+  - eqcase t' t; [discriminate|]. eapply K; eauto.
+  - eqcase t' t; [discriminate|]. eapply K; eauto.
+  - eqcase t' t; [assumption|]. eapply K; eauto.
+  - eqcase t' t; [discriminate|]. eapply K; eauto.
+  - (* coll_unlock: the collector held the lock, nobody can be in EOut *)
+    assert (lock s = HColl) by (apply KC; split_or; rw_state s; reflexivity).
+    specialize (KH _ _ _ Hg eq_refl). congruence.
+Qed.
+
+Lemma step_pc_keep s s' t p b :
+  step s s' -> get_pc t (epcs s) = Some (p, b) -> exists p', get_pc t (epcs s') = Some (p', b).
+Proof.
+  intros Hs G. destruct Hs; simpl; pcs; rewrite ?G; eauto.
+  all: eqcase t t0; [|eauto].
+  all: match goal with G1 : get_pc ?x ?m = Some (?p1, ?b1), H1 : get_pc ?x ?m = Some (?p2, ?b2) |- _ =>
+         rewrite G1 in H1; inversion H1; subst; eauto end.
+Qed.
+
+Lemma pres_flag s s' : Inv s -> step s s' ->
+  forall t e, In (t, e) (places s') -> exists p b, get_pc t (epcs s') = Some (p, b) /\ e = err_of b.
+Proof.
+  intros I Hs t e Hin. pose proof (i_flag s I) as K.
+  destruct (step_places s s' Hs) as [P|(t0 & b0 & Hl & G & He & P)].
+  - apply (Permutation_in _ P) in Hin. destruct (K _ _ Hin) as (p & b & G & E).
+    destruct (step_pc_keep _ _ _ _ _ Hs G) as (p' & G'). eauto.
+  - apply (Permutation_in _ P) in Hin. destruct Hin as [Hin|Hin].
+    + inversion Hin; subst. rewrite He. rewrite (get_pc_set _ _ _ _ _ _ G), N.eqb_refl. eauto.
+    + destruct (K _ _ Hin) as (p & b & G1 & E).
+      destruct (step_pc_keep _ _ _ _ _ Hs G1) as (p' & G'). eauto.
+Qed.
+
+(* which tasks count as pushed changes only by the push step *)
+Lemma pushed_app s t1 b1 m' :
+  get_pc t1 (epcs s) = None -> m' = epcs s ++ [(t1, (ERun, b1))] ->
+  forall t, (exists p b, get_pc t m' = Some (p, b) /\ pushedb p = true) <-> pushed s t.
+Proof.
+  intros G -> t. unfold pushed. rewrite get_pc_app.
+  destruct (get_pc t (epcs s)) as [[p0 b0]|] eqn:G0; [tauto|].
+  split; intros (p & b & H & Hp); [|discriminate].
+  destruct (N.eqb t t1); inversion H; subst; discriminate.
+Qed.
+
+Lemma pushed_set s t1 p0 p1 b1 :
+  get_pc t1 (epcs s) = Some (p0, b1) ->
+  forall t, (exists p b, get_pc t (set_st t1 p1 (epcs s)) = Some (p, b) /\ pushedb p = true) <->
+            (if N.eqb t t1 then pushedb p1 = true else pushed s t).
+Proof.
+  intros G t. rewrite (get_pc_set _ _ _ _ _ _ G). unfold pushed.
+  destruct (N.eqb t t1); [|tauto].
+  split; [intros (p & b & H & Hp); inversion H; subst; assumption|intros H; eauto].
+Qed.
+
+Lemma step_pushed s s' :
+  step s s' ->
+  (forall t, pushed s' t <-> pushed s t) \/
+  (exists t0 b0, get_pc t0 (epcs s) = Some (ELk, b0) /\ epcs s' = set_st t0 ETop (epcs s) /\
+                 forall t, pushed s' t <-> t = t0 \/ pushed s t).
+Proof.
+  intros Hs. destruct Hs; try (left; intros t'; unfold pushed; simpl; tauto).
+  - left. eapply pushed_app; [eassumption|reflexivity].
+  - left. eapply pushed_app; [eassumption|reflexivity].
+  - left. intros t'. unfold pushed at 1; simpl. rewrite (pushed_set _ _ _ _ _ H).
+    eqcase t' t; [|tauto]. unfold pushed. rewrite H. split; [discriminate|].
+    intros (p & b1 & G & Hp); inversion G; subst; discriminate.
+  - right. exists t, b. split; [assumption|]. split; [reflexivity|].
+    intros t'. unfold pushed at 1; simpl. rewrite (pushed_set _ _ _ _ _ H0).
+    eqcase t' t; [tauto|]. split; [auto|]. intros [?|?]; [congruence|assumption].
+  - left. intros t'. unfold pushed at 1; simpl. rewrite (pushed_set _ _ _ _ _ H0).
+    eqcase t' t; [|tauto]. unfold pushed. rewrite H0. split; [eauto|reflexivity].
+  - left. intros t'. unfold pushed at 1; simpl. rewrite (pushed_set _ _ _ _ _ H0).
+    eqcase t' t; [|tauto]. unfold pushed. rewrite H0.
+    split; [intros _; exists p, b; split; [reflexivity|destruct H1 as [[-> _]| ->]; reflexivity]|reflexivity].
+Qed.
+
+
+Ltac places_tac s :=
+  unfold places; simpl;
+  repeat match goal with
+         | H : cp s = _ |- _ => rewrite H
+         | H : l s = _ |- _ => rewrite H
+         | H : done s = _ |- _ => rewrite H
+         end; simpl; psolve.
+
+Lemma step_pp s s' :
+  step s s' ->
+  (Permutation (places s') (places s) /\ forall t, pushed s' t <-> pushed s t) \/
+  (exists t0 b0, get_pc t0 (epcs s) = Some (ELk, b0) /\
+                 Permutation (places s') ((t0, err_of b0) :: places s) /\
+                 forall t, pushed s' t <-> t = t0 \/ pushed s t).
+Proof.
+  intros Hs. destruct Hs; split_or;
+    try (left; split; [places_tac s|intros t'; unfold pushed; simpl; tauto]; fail).
+  - left; split; [places_tac s|]. eapply pushed_app; [eassumption|reflexivity].
+  - left; split; [places_tac s|]. eapply pushed_app; [eassumption|reflexivity].
+  - left; split; [places_tac s|]. intros t'. unfold pushed at 1; simpl. rewrite (pushed_set _ _ _ _ _ H).
+    eqcase t' t; [|tauto]. unfold pushed. rewrite H. split; [discriminate|].
+    intros (p & b1 & G & Hp); inversion G; subst; discriminate.
+  - right. exists t, b. split; [assumption|]. split; [places_tac s|].
+    intros t'. unfold pushed at 1; simpl. rewrite (pushed_set _ _ _ _ _ H0).
+    eqcase t' t; [tauto|]. split; [auto|]. intros [?|?]; [congruence|assumption].
+  - left; split; [places_tac s|]. intros t'. unfold pushed at 1; simpl. rewrite (pushed_set _ _ _ _ _ H0).
+    eqcase t' t; [|tauto]. unfold pushed. rewrite H0. split; [eauto|reflexivity].
+  - left; split; [places_tac s|]. subst p. intros t'. unfold pushed at 1; simpl. rewrite (pushed_set _ _ _ _ _ H0).
+    eqcase t' t; [|tauto]. unfold pushed. rewrite H0. split; [eauto|reflexivity].
+  - left; split; [places_tac s|]. subst p. intros t'. unfold pushed at 1; simpl. rewrite (pushed_set _ _ _ _ _ H0).
+    eqcase t' t; [|tauto]. unfold pushed. rewrite H0. split; [eauto|reflexivity].
+Qed.
+
+Lemma pres_places s s' : Inv s -> step s s' ->
+  NoDup (map fst (places s')) /\ (forall t, In t (map fst (places s')) <-> pushed s' t).
+Proof.
+  intros I Hs. pose proof (i_nodup s I) as KN. pose proof (i_places s I) as KP.
+  destruct (step_pp s s' Hs) as [[P Q]|(t0 & b0 & G & P & Q)].
+  - split.
+    + apply (Permutation_NoDup (l := map fst (places s))); [apply Permutation_map; symmetry; exact P|exact KN].
+    + intros t. rewrite Q, <- KP. split; apply Permutation_in; apply Permutation_map; [exact P|symmetry; exact P].
+  - assert (Hn : ~ In t0 (map fst (places s))).
+    { rewrite KP. intros (p & b & G2 & Hp). rewrite G in G2. inversion G2; subst. discriminate. }
+    split.
+    + apply (Permutation_NoDup (l := t0 :: map fst (places s))).
+      * symmetry. apply (Permutation_map fst) in P. exact P.
+      * constructor; assumption.
+    + intros t. rewrite Q, <- KP. apply (Permutation_map fst) in P. simpl in P.
+      split; intros H.
+      * apply (Permutation_in _ P) in H. destruct H; auto.
+      * apply (Permutation_in _ (Permutation_sym P)). destruct H; [left; auto|right; auto].
+Qed.
+
+Lemma pres_wake s s' : Inv s -> step s s' ->
+  idle (cp s') = true -> done s' = None ->
+  l s' = [] \/ exists x b, lock s' = HExec x /\ get_pc x (epcs s') = Some (ETop, b) /\ l s' = [(x, err_of b)].
+Proof.
+  intros I Hs. pose proof (i_wake s I) as K. pose proof (i_out s I) as KO. pose proof (i_full s I) as KF.
+  destruct Hs; simpl; intros Hi Hd; try discriminate.
+  - (* spawn *) destruct K as [K|(x & b1 & K1 & K2 & K3)]; [rewrite H; reflexivity|assumption|auto|].
+    right. exists x, b1. rewrite get_pc_app, K2. auto.
+  - destruct K as [K|(x & b1 & K1 & K2 & K3)]; [rewrite H; reflexivity|assumption|auto|].
+    right. exists x, b1. rewrite get_pc_app, K2. auto.
+  - apply K; [rewrite H; reflexivity|assumption].
+  - apply K; [rewrite H; reflexivity|assumption].
+  - (* exec_lock *) destruct (K Hi Hd) as [K0|(x & b1 & K1 & _)]; [auto|congruence].
+  - (* push *) destruct (K Hi Hd) as [K0|(x & b1 & K1 & K2 & K3)].
+    + rewrite K0. simpl. right. exists t, b. rewrite (get_pc_set _ _ _ _ _ _ H0), N.eqb_refl. auto.
+    + rewrite H in K1; inversion K1; subst. rewrite H0 in K2; discriminate.
+  - (* full *) contradiction.
+  - (* unlock *) destruct H1 as [[-> Hl]| ->]; [auto|]. exfalso. eapply KO; eauto.
+  - (* coll_unlock *) destruct H as [[_ Hl]|Hc]; [auto|]. exfalso. eapply KF; eauto.
+Qed.
+
+Theorem inv_step s s' : Inv s -> step s s' -> Inv s'.
+Proof.
+  intros I Hs. destruct (pres_places s s' I Hs) as [P1 P2].
+  constructor.
+  - exact P1.
+  - exact P2.
+  - exact (pres_hold s s' I Hs).
+  - exact (pres_lockE s s' I Hs).
+  - exact (pres_lockC s s' I Hs).
+  - exact (pres_wake s s' I Hs).
+  - exact (pres_full s s' I Hs).
+  - exact (pres_out s s' I Hs).
+  - exact (pres_count s s' I Hs).
+  - exact (pres_flag s s' I Hs).
+  - exact (pres_sync s s' I Hs).
+  - exact (pres_keys s s' I Hs).
+Qed.
+
+Theorem inv_reach s : reach s -> Inv s.
+Proof. induction 1; [apply inv_init|eapply inv_step; eassumption]. Qed.
+
+(* ------------------------------------------------------------------ consequences *)
+
+(* C03 "every node execution that was started is collected exactly once": a finished (pushed)
+   task sits in exactly one of l / done / the collector's hands / collected, an unfinished one in
+   none, and what has been collected stays collected. *)
+Lemma NoDup_app_r {A} (a b : list A) : NoDup (a ++ b) -> NoDup b.
+Proof. induction a; simpl; [auto|]. intros H; inversion H; auto. Qed.
+
+Lemma exactly_once s :
+  reach s ->
+  (forall t, pushed s t -> count_occ N.eq_dec (map fst (places s)) t = 1) /\
+  (forall t, ~ pushed s t -> count_occ N.eq_dec (map fst (places s)) t = 0) /\
+  NoDup (map fst (collected s)) /\
+  (forall s', step s s' -> incl (collected s) (collected s')).
+Proof.
+  intros R. pose proof (inv_reach s R) as I.
+  pose proof (i_nodup s I) as KN. pose proof (i_places s I) as KP.
+  repeat split.
+  - intros t Hp. apply KP in Hp.
+    pose proof (proj1 (NoDup_count_occ N.eq_dec _) KN t) as Hle.
+    apply (count_occ_In N.eq_dec) in Hp. lia.
+  - intros t Hp. apply count_occ_not_In. rewrite KP. exact Hp.
+  - unfold places in KN. rewrite !map_app in KN.
+    apply NoDup_app_r in KN. apply NoDup_app_r in KN. apply NoDup_app_r in KN. exact KN.
+  - intros s' Hs x Hx. destruct Hs; simpl; auto; right; exact Hx.
+Qed.
+
+(* C03 "no completion lost": the collector never sleeps on an empty slot while a finished task is
+   waiting to be handed over. *)
+Lemma no_lost_wakeup s :
+  reach s -> cp s = CWait ->
+  (exists t b, get_pc t (epcs s) = Some (EDone, b) /\ ~ In t (map fst (collected s))) ->
+  done s <> None.
+Proof.
+  intros R Hc (t & b & G & Hn) Hd. pose proof (inv_reach s R) as I.
+  assert (Hp : pushed s t) by (exists EDone, b; auto).
+  apply (i_places s I) in Hp. unfold places in Hp. rewrite Hc, Hd in Hp. simpl in Hp.
+  rewrite map_app in Hp. apply in_app_or in Hp. destruct Hp as [Hp|Hp]; [|contradiction].
+  destruct (i_wake s I) as [K|(x & b1 & K1 & K2 & K3)]; [rewrite Hc; reflexivity|assumption| |].
+  - rewrite K in Hp. destruct Hp.
+  - rewrite K3 in Hp. simpl in Hp. destruct Hp as [Hp|[]]. subst x. rewrite G in K2. discriminate.
+Qed.
+
+(* C03 "a panic in a node body becomes that task's error": whatever is handed over or collected
+   for a task whose body panicked (or failed) carries the error flag *)
+Lemma panic_is_error s t e p :
+  reach s -> In (t, e) (places s) -> get_pc t (epcs s) = Some (p, BPanic) -> e = true.
+Proof.
+  intros R Hin G. destruct (i_flag s (inv_reach s R) _ _ Hin) as (p1 & b1 & G1 & E).
+  rewrite G in G1. inversion G1; subst. reflexivity.
+Qed.
